@@ -201,7 +201,31 @@ func runProperty(w *World, prop, tier, vdir string, start time.Time, writeBaseli
 			}
 		}
 	}
+	// vacuity guard: the preconditions of every function under contract must
+	// be satisfiable (a contradictory `requires` would prove anything)
+	var vac []*Obligation
+	for _, r := range rs {
+		if r.HasReq && r.Err == "" && !r.Trusted && r.NRequires <= len(r.Assumes) {
+			o := &Obligation{Name: r.Name + ":vacuity:requires-satisfiable", Kind: "vacuity", Fn: r.Name, NAssume: r.NRequires, PC: True, Cond: False}
+			r.Obls = append(r.Obls, o)
+			vac = append(vac, o)
+		}
+	}
 	discharge(rs, 8, quickT, fullT)
+	vacuous := []string{}
+	for _, r := range rs {
+		keep := r.Obls[:0]
+		for _, o := range r.Obls {
+			if o.Kind == "vacuity" {
+				if o.Status == "unsat" {
+					vacuous = append(vacuous, o.Name)
+				}
+				continue
+			}
+			keep = append(keep, o)
+		}
+		r.Obls = keep
+	}
 	known := loadKnown(filepath.Join(vdir, "KNOWN_FINDINGS.txt"))
 
 	if writeBaseline {
@@ -367,6 +391,10 @@ func runProperty(w *World, prop, tier, vdir string, start time.Time, writeBaseli
 		}
 	}
 
+	for _, v := range vacuous {
+		viols = append(viols, viol{name: v, reason: "the preconditions of this contract are contradictory: everything proved under them is vacuous"})
+		total++
+	}
 	// replay + report
 	exit := 0
 	replayDir := filepath.Join(vdir, "out", "replay", prop)
@@ -449,6 +477,7 @@ func runProperty(w *World, prop, tier, vdir string, start time.Time, writeBaseli
 		"undecided_not_claimed":    undecided,
 		"known_findings":           knownHits,
 		"violations":               violNames,
+		"vacuity_checks":           len(vac),
 		"samples":                  samples,
 	}
 	ev := map[string]interface{}{
